@@ -78,7 +78,7 @@ theorem sortByKey_of_increasing (xs : List (Nat × Bytes)) (h : KeysIncreasing x
     | cons y ys =>
       simp only [KeysIncreasing] at h
       rw [sortByKey, ih h.2]
-      simp [insertByKey, h.1]
+      simp [insertByKey, Nat.le_of_lt h.1]
 
 /-- EDNS options: the model's (code, length, value) writer is RFC 6891's option list -/
 theorem encTlvs22_eq_encodeOptions (xs : List (Nat × Bytes)) :
